@@ -1464,6 +1464,7 @@ impl<'a> Lifter<'a> {
     /// L32: statement forms that are rewritten to forms of the rule list before lifting
     ///  (a) `for (a, &b) in X.axis_iter(Axis(0)).zip(Y.iter()) BODY` (also `outer_iter()`; `Y.iter()` or `&Y`) is
     ///      `for k in 0..Y.len() { let a = X.index_axis(Axis(0), k); let b = Y[k]; BODY }` (zip of equally long sequences, A10)
+    ///  (c) `for (i, &x) in Y.iter().enumerate() BODY` is `for i in 0..Y.len() { let x = Y[i]; BODY }`
     ///  (b) `A.iter_mut().zip(B.iter()).for_each(|(m, &r)| BODY)` with a local A is
     ///      `A = Zip::from(&A).and(&B).map_collect(|&m0, &r| { let mut m = m0; BODY'; m })`, BODY' = BODY with `*m` read as `m`
     fn desugar_stmt(st: &syn::Stmt) -> Option<syn::Stmt> {
@@ -1476,6 +1477,19 @@ impl<'a> Lifter<'a> {
                 let syn::Pat::Tuple(tp) = &*f.pat else { return None };
                 if tp.elems.len() != 2 { return None; }
                 let syn::Expr::MethodCall(z) = &*f.expr else { return None };
+                // (c) `for (i, &x) in Y.iter().enumerate() BODY` is `for i in 0..Y.len() { let x = Y[i]; BODY }`
+                if z.method == "enumerate" && z.args.is_empty() {
+                    let syn::Expr::MethodCall(it) = &*z.receiver else { return None };
+                    if it.method != "iter" || !it.args.is_empty() { return None; }
+                    let y = &it.receiver;
+                    let syn::Pat::Ident(pi) = &tp.elems[0] else { return None };
+                    let (i, px) = (&pi.ident, strip_ref(&tp.elems[1]));
+                    let stmts = &f.body.stmts;
+                    let synth: syn::Stmt = syn::parse2(quote::quote!(
+                        for #i in 0..(#y).len() { let #px = (#y)[#i]; #(#stmts)* }
+                    )).ok()?;
+                    return Some(synth);
+                }
                 if z.method != "zip" || z.args.len() != 1 { return None; }
                 let syn::Expr::MethodCall(ax) = &*z.receiver else { return None };
                 let x = &ax.receiver;
@@ -4039,9 +4053,10 @@ pub fn lift_fn(ctx: &mut Ctx, blk: &Block) -> Result<(String, Value), String> {
         // directive does not list are pulled in front of it - provided no statement between such a `let` and the anchor
         // assigns anything the `let` reads (a split initialiser keeps its anchor)
         let mut pulled: Vec<syn::Stmt> = Vec::new();
+        let mut self_note_l29e = false;
         {
             // the block and the index of the statement that holds the anchor (the `let`, or the n-th assignment)
-            struct FindBlk<'x> { name: String, assign: bool, skip: usize, found: Option<(&'x syn::Block, usize)> }
+            struct FindBlk<'x> { name: String, assign: bool, skip: usize, found: Option<(&'x syn::Block, usize)>, stack: Vec<(&'x syn::Block, usize)>, path: Vec<(&'x syn::Block, usize)> }
             impl<'ast> FindBlk<'ast> {
                 fn is_anchor(&mut self, st: &'ast syn::Stmt) -> bool {
                     if !self.assign {
@@ -4077,10 +4092,14 @@ pub fn lift_fn(ctx: &mut Ctx, blk: &Block) -> Result<(String, Value), String> {
                         for (k, st) in b.stmts.iter().enumerate() {
                             if self.is_anchor(st) {
                                 self.found = Some((b, k));
+                                self.path = self.stack.clone();
+                                self.path.push((b, k));
                                 return;
                             }
                             // nested blocks of earlier statements are searched in source order
+                            self.stack.push((b, k));
                             syn::visit::visit_stmt(self, st);
+                            self.stack.pop();
                             if self.found.is_some() {
                                 return;
                             }
@@ -4092,9 +4111,12 @@ pub fn lift_fn(ctx: &mut Ctx, blk: &Block) -> Result<(String, Value), String> {
                 Some(a) => match a.split_once('#') { Some((x, n)) => (x.to_string(), true, n.parse::<usize>().unwrap_or(0)), None => (a.to_string(), true, 0) },
                 None => (lname.to_string(), false, 0),
             };
-            let mut fb = FindBlk { name: aname, assign, skip, found: None };
+            let mut fb = FindBlk { name: aname, assign, skip, found: None, stack: vec![], path: vec![] };
             syn::visit::Visit::visit_block(&mut fb, f.block);
-            if let Some((b, k0)) = fb.found {
+            if fb.found.is_some() {
+                // (level, index) of every pulled statement: source order = outer blocks first, then by position
+                let mut pulled_at: Vec<(usize, usize)> = Vec::new();
+                let path = fb.path.clone();
                 loop {
                     let mut reads = Vars(vec![]);
                     syn::visit::Visit::visit_expr(&mut reads, &init);
@@ -4109,15 +4131,21 @@ pub fn lift_fn(ctx: &mut Ctx, blk: &Block) -> Result<(String, Value), String> {
                             }
                         }
                     }
-                    let mut picked: Option<usize> = None;
+                    let mut picked: Option<(usize, usize)> = None;
+                    // innermost block first; in an enclosing block (L29e) the statement that contains the anchor counts
+                    // as "between" as a whole - it may run many times (loop body)
+                    'levels: for lvl in (0..path.len()).rev() {
+                    let (b, k0) = path[lvl];
+                    let k_end = if lvl + 1 == path.len() { k0 } else { k0 + 1 };
                     for k in (0..k0).rev() {
+                        if pulled_at.contains(&(lvl, k)) { continue; }
                         if let syn::Stmt::Local(l) = &b.stmts[k] {
                             if let (syn::Pat::Ident(pi), Some(li)) = (&l.pat, &l.init) {
                                 let n = pi.ident.to_string();
                                 if pi.mutability.is_none() && reads.0.contains(&n) && !params.iter().any(|(p, _)| *p == n) && !own_pulled.contains(&n) {
                                     // nothing between this `let` and the anchor may assign what the `let` reads
                                     let lreads = Lifter::idents_of(&li.expr);
-                                    let between = syn::Block { brace_token: Default::default(), stmts: b.stmts[k + 1..k0].to_vec() };
+                                    let between = syn::Block { brace_token: Default::default(), stmts: b.stmts[k + 1..k_end].to_vec() };
                                     let assigned = Lifter::assigned_vars(&between);
                                     let mut index_assigned: Vec<String> = Vec::new();
                                     for st in &between.stmts {
@@ -4132,26 +4160,29 @@ pub fn lift_fn(ctx: &mut Ctx, blk: &Block) -> Result<(String, Value), String> {
                                         }
                                     }
                                     if !assigned.iter().chain(index_assigned.iter()).any(|a| lreads.contains(a) || *a == n) {
-                                        picked = Some(k);
-                                        break;
+                                        picked = Some((lvl, k));
+                                        break 'levels;
                                     }
                                 }
                             }
                         }
                     }
+                    }
                     match picked {
-                        Some(k) => {
-                            // keep source order among the pulled statements
-                            let pos = pulled.iter().position(|_| false).unwrap_or(0);
-                            let _ = pos;
-                            pulled.push(b.stmts[k].clone());
+                        Some((lvl, k)) => {
+                            if lvl + 1 != path.len() {
+                                self_note_l29e = true;
+                            }
+                            pulled.push(path[lvl].0.stmts[k].clone());
+                            pulled_at.push((lvl, k));
                         }
                         None => break,
                     }
                 }
-                // source order: the statements were collected from the anchor backwards by need, sort by position
-                let order = |st: &syn::Stmt| b.stmts.iter().position(|x| x.to_token_stream().to_string() == st.to_token_stream().to_string()).unwrap_or(0);
-                pulled.sort_by_key(order);
+                // source order: the statements were collected from the anchor backwards by need, sort by (level, position)
+                let mut both: Vec<((usize, usize), syn::Stmt)> = pulled_at.iter().cloned().zip(pulled.drain(..)).collect();
+                both.sort_by_key(|(at, _)| *at);
+                pulled = both.into_iter().map(|(_, st)| st).collect();
             }
         }
         let mut vs = Vars(vec![]);
